@@ -1,3 +1,5 @@
+//go:build c20
+
 package main
 
 // C20, round 6: the four "envelope" types of package abi (InMsgBody, ExtOutMsgBody, JettonPayload, NFTPayload — one
